@@ -190,7 +190,9 @@ func (b *bitstream) Next() error {
 
 	// Structs with a length code of 1 are a special case. Their length is always encoded
 	// as a VarUInt and their field names appear in ascending symbol ID order.
+	lengthIsExplicit := false
 	if code == bitcodeStruct && length == 1 {
+		lengthIsExplicit = true
 		length, _, err = b.readVarUintLen(b.remaining())
 		if err != nil {
 			return err
@@ -238,7 +240,7 @@ func (b *bitstream) Next() error {
 		}
 	}
 
-	if length == 0x0F {
+	if length == 0x0F && !lengthIsExplicit {
 		// This value is actually a null.
 		b.code = code
 		b.null = true
@@ -249,7 +251,7 @@ func (b *bitstream) Next() error {
 	rem := b.remaining()
 
 	// This value's actual length is encoded as a separate varUint.
-	if length == 0x0E {
+	if length == 0x0E && !lengthIsExplicit {
 		var lenghtOfRemaining uint64
 		length, lenghtOfRemaining, err = b.readVarUintLen(rem)
 		if err != nil {
